@@ -47,7 +47,19 @@ def render(graph):
             lines.append('%s.$c%d: %s.$c%d + 1;' % (ns, t, ns, t))
             lines.append('.r%d-%d-%d { v: %s.$c%d }' % (i, j, t, ns, t))
         return ('$c%d: 0;' % i, '\n'.join(lines))
-    return lg.render(graph, marker=lambda i: '.m%d{x:y}' % i, extra=extra)
+    files = lg.render(graph, marker=lambda i: '.m%d{x:y}' % i, extra=extra)
+    # a second (or first) load that carries a configuration must not execute the module again either: flagged @forward edges
+    # get `with ($cfgT: 1)`; every module declares `$cfgI: 0 !default`
+    cfg = graph.get('cfg')
+    if cfg:
+        for i, path in enumerate(graph['files']):
+            text = files[path]
+            for (k, t, v), flag in zip(graph['edges'][i], cfg[i]):
+                if flag and k == 'forward':
+                    line = '@forward "%s";' % lg.spell(path, graph['files'][t], v)
+                    text = text.replace(line, line[:-1] + ' with ($cfg%d: 1);' % t, 1)
+            files[path] = text.replace('$c%d: 0;' % i, '$cfg%d: 0 !default; $c%d: 0;' % (i, i), 1)
+    return files
 
 
 def model(graph):
@@ -156,6 +168,9 @@ def judge(ctx, graph, r):
         return
     ctx.stat('status:' + str(st))
     if st != 'ok':
+        if graph.get('cfg'):
+            ctx.stat('configured-load-refused')       # refusing to configure a loaded module is legitimate
+            return
         ctx.undecided('graph-does-not-compile', (r.get('err') or '')[:200].replace('\n', ' | '))
         return
     done, expect = model(graph)
@@ -272,6 +287,9 @@ def worker(ctx):
     while not ctx.expired():
         gs = [lg.random_graph(ctx.rng, ctx.rng.choice([3, 4, 4, 5, 6]), max_out=3, kinds=lg.MODULE_KINDS, acyclic=True, p_edge=0.9)
               for _ in range(200)]
+        for g in gs:
+            if ctx.rng.random() < 0.4:
+                g['cfg'] = [[e[0] == 'forward' and ctx.rng.random() < 0.5 for e in es] for es in g['edges']]
         if first:
             ctx.sample({'graph': gs[0], 'files': render(gs[0])})
             first = False
